@@ -98,6 +98,18 @@ def cases(tier, seed):
     for rep in range(2 if tier == "quick" else 12):
         for wd in tmpl:
             add(wd, latency0=rng.random() < 0.5, peers=rng.choice((1, 1, 2)), dense=True)
+    # the same overlap with a SyncGroup that is answered late (and successfully): the stale heartbeat's refusal lands
+    # between the JoinGroup and SyncGroup replies
+    for rep in range(2 if tier == "quick" else 10):
+        for h in (1, 2, 3, 4):
+            for code1 in (22, 27):
+                add([("OffsetCommit", h, "error-after-heartbeat", code1), ("Heartbeat", h, "late", 27),
+                     ("SyncGroup", h, "slow-after-heartbeat", 0)], latency0=rng.random() < 0.5, peers=0, dense=True)
+    # a non-Kafka processor failure arriving while the group waits for that consumer to shut down before rejoining
+    for h in (1, 2, 3):
+        for j in range(8):
+            add([("Heartbeat", h, "error", 27), ("processor", j, "fail-async", 0)], latency0=(j % 2 == 0), peers=0,
+                dense=True, slowproc=0.7, one_partition=True)
     # a rebalance arriving while a partition consumer's commit is unanswered
     for rep in range(2 if tier == "quick" else 10):
         for h in (2, 3, 4):
@@ -143,6 +155,10 @@ def build(spec):
     m0 = sc["members"][0]
     m0.update(name="m0", topics=["ga"], start=0.0, stop=None, kill=None, commit_every_n=1, commit_every_ms=300,
               procs=[["sync"]] * 8, consumer_kwargs=dict(fetch_max_wait_time=300))
+    if spec.get("slowproc"):
+        m0["procs"] = [["async", spec["slowproc"]]] * 8
+    if spec.get("one_partition"):
+        sc["topics"] = {"ga": 1}
     members = [m0]
     for j in range(spec.get("peers", 0)):
         p = dict(m0)
@@ -162,10 +178,10 @@ def build(spec):
     for (api, k, kind, code) in spec["word"]:
         if api == "processor":
             procs = [list(x) for x in m0["procs"]]
-            procs[k % len(procs)] = ["fail"]
+            procs[k % len(procs)] = ["fail"] if kind == "fail" else ["fail_async", spec.get("slowproc", 0.7)]
             m0["procs"] = procs
             continue
-        if kind in ("error-after-heartbeat", "silent-after-heartbeat"):
+        if kind in ("error-after-heartbeat", "silent-after-heartbeat", "slow-after-heartbeat"):
             continue  # installed by the monitor when that heartbeat is issued
         act = dict(kind=kind)
         if kind == "late":
@@ -199,6 +215,7 @@ class Mon(object):
         self.last_progress_req = {}
         self.reported = set()
         self.last_fault_t = None
+        self.last_sync_ok = {}
         self.timer = {}  # member -> time the pending join_and_sync call is due, as of the last quiescent point
         self.pending_backoff = {}
 
@@ -216,6 +233,9 @@ class Mon(object):
                         if kind == "error-after-heartbeat" and h == self.n_hb - 1:
                             tr.cluster.faults.rules.insert(0, dict(api=api, client_id=b"m0", nth=[0], _seen=0,
                                                                    action=dict(kind="error", code=code)))
+                        if kind == "slow-after-heartbeat" and h == self.n_hb - 1:
+                            tr.cluster.faults.rules.insert(0, dict(api=api, client_id=b"m0", nth=[0], _seen=0,
+                                                                   action=dict(kind="ok", delay=0.7)))
                         if kind == "silent-after-heartbeat" and h == self.n_hb - 1:
                             tr.cluster.faults.rules.insert(0, dict(api=api, client_id=b"m0", nth=[0, 1, 2], _seen=0,
                                                                    action=dict(kind="silent", apply=False)))
@@ -228,6 +248,7 @@ class Mon(object):
             api = ev["api"]
             if api == "SyncGroup" and ev["ok"] and ev["srv_error"] == 0:
                 self.stable[name] = True
+                self.last_sync_ok[name] = ev["t"]
             elif api in ("JoinGroup", "SyncGroup", "Heartbeat") and (not ev["ok"] or ev["srv_error"]):
                 self.stable[name] = False
             if self.spec.get("latency0") and api in ("JoinGroup", "SyncGroup", "Heartbeat", "FindCoordinator") \
@@ -327,11 +348,12 @@ class Mon(object):
             return "rejoin-timer"
         tm = m.spec["timing"]
         if "heartbeat_looper" in kinds:
-            if self.stable.get(m.name):
-                return "stable"
-            hb = self.last_hb.get(m.name)
-            if hb is not None and now - hb <= tm["hb"] / 1000.0 + tr.sc["timeout"] + 1e-6:
-                return "heartbeating"
+            # a timer that is armed while every tick is skipped is not progress: a heartbeat (or the sync that
+            # started the timer) must have been on the wire within one interval plus the client timeout
+            last = max([x for x in (self.last_hb.get(m.name), self.last_sync_ok.get(m.name)) if x is not None] or [None],
+                       key=lambda x: x if x is not None else -1)
+            if last is not None and now - last <= tm["hb"] / 1000.0 + tr.sc["timeout"] + 1e-6:
+                return "stable" if self.stable.get(m.name) else "heartbeating"
         if m.outstanding(("OffsetCommit",)) or any(c["done"] is None for c in m.calls):
             return "consumer-shutdown-work"
         if any(k.startswith("consumer.") and "commit" in k for k in kinds):
@@ -373,7 +395,7 @@ def run(spec):
         if now < 14.0:
             return False
         last = max([f[0] for f in tr_.cluster.faults.fired] or [tr_.base]) - tr_.base
-        pf = [c["t"] - tr_.base for c in tr_.members["m0"].calls if c["beh"][0] == "fail"]
+        pf = [c["t"] - tr_.base for c in tr_.members["m0"].calls if c.get("failed")]
         if pf:
             last = max(last, pf[-1])
         return now >= last + 13.0
@@ -390,7 +412,7 @@ def run(spec):
     word = [tuple(x) for x in spec["word"]]
     # a malformed reply is decoded by afkak into some error (UnknownError, BufferUnderflowError...) or raises a
     # non-Kafka exception, depending on the bytes: either a rejoin or a failed start Deferred is acceptable there
-    non_kafka = [x for x in word if x[2] == "fail"]
+    non_kafka = [x for x in word if x[2] in ("fail", "fail-async")]
     malformed = [x for x in word if x[2] == "garbage"]
     # which of the word's faults actually fired
     fired_keys = set()
@@ -400,7 +422,7 @@ def run(spec):
             fired_keys.add((e["api"], e["action"]["kind"]))
     t_last_fault = max([e["t"] for e in cl.history if "req" in e and e.get("client_id") == b"m0"
                         and e.get("action", {}).get("kind") in ("error", "silent", "drop", "garbage")] or [tr.base])
-    proc_failed = [c for c in m.calls if c["beh"][0] == "fail"]
+    proc_failed = [c for c in m.calls if c["beh"][0] in ("fail", "fail_async") and c.get("failed")]
     if proc_failed:
         t_last_fault = max(t_last_fault, proc_failed[-1]["t"])
     # 3 non-Kafka errors surface on the start Deferred
@@ -420,6 +442,12 @@ def run(spec):
                 res.violate("non-kafka/start-deferred-never-fired/%s" % nk_fired[0][0], "a non-Kafka failure was "
                             "injected at %s but the Deferred returned by start() has not fired %.1fs later"
                             % (nk_fired[0][0], tr.end_t - t_last_fault), word=spec["word"])
+            elif proc_failed and not m.start_fires[0]["ok"] and \
+                    m.start_fires[0]["t"] > min(c["done"]["t"] for c in proc_failed if c.get("done")) + 3.0:
+                res.violate("non-kafka/first-processor-failure-did-not-surface", "the processor failed at t=%.2f but "
+                            "the start Deferred fired only at t=%.2f (after %d failure(s))" % (
+                                min(c["done"]["t"] for c in proc_failed if c.get("done")) - tr.base,
+                                m.start_fires[0]["t"] - tr.base, len(proc_failed)), word=spec["word"])
             elif m.start_fires[0]["ok"]:
                 res.violate("non-kafka/start-deferred-succeeded/%s" % nk_fired[0][0], "a non-Kafka failure was "
                             "injected at %s and the start Deferred fired with success" % nk_fired[0][0],
